@@ -115,6 +115,11 @@ where
     #[cfg(feature = "ipa-verif")]
     crate::verif_obs::emit("hybrid:pairs", ctx.role() as u64, u64::from(u32::from(ctx.shard_id())), report_pairs.len() as u64);
 
+    // No match key occurred exactly twice: nothing to add (and no records to validate).
+    if report_pairs.is_empty() {
+        return Ok(Vec::new());
+    }
+
     let chunk_size =
         non_zero_prev_power_of_two(TARGET_PROOF_SIZE / (BK::BITS as usize + V::BITS as usize));
 
